@@ -1,4 +1,5 @@
 """C18 Children created from values are indented by the documented rule."""
+import copy
 import datetime
 import decimal
 
@@ -9,7 +10,7 @@ D = decimal.Decimal
 CASES = {'quick': 8000, 'thorough': 100000}
 SMALL_BLOCKS = 4      # runner: every 4th case keeps its stores in 2..10-token blocks
 GATES = {
-    'quick': {'empty_indent_by': 40, 'cases_in_small_blocks': 50, 'evaluations': 6000, 'created_meta_items': 1800, 'created_comments': 1200, 'raw_items_inserted': 600, 'from_value_meta': 400, 'constructed_with_indent_by': 400,
+    'quick': {'empty_indent_by': 40, 'cases_in_small_blocks': 50, 'evaluations': 6000, 'created_meta_items': 1800, 'created_comments': 1200, 'raw_items_inserted': 600, 'from_value_meta': 400, 'insertions_into_a_deep_copy': 600, 'constructed_with_indent_by': 400,
               'entry_classes_seen': 13, 'layout:none': 300, 'layout:uniform': 300, 'layout:tabs': 100, 'layout:with-comments': 200,
               'layout:non-uniform': 100, 'meta_view_read_before_indent_by': 1500, 'reconfigured_between_edits': 1000,
               'meta_cleared_before_insert': 200, 'existing_comment_updates': 150, 'existing_comment_reindented_through_raw_text': 40},
@@ -94,6 +95,21 @@ def run_case(col, r, idx):
     if iby is not None:
         owner.indent_by = iby
     eff_by = owner.indent_by
+    if r.random() < 0.2:
+        # the insertions go into a deep copy of the configured document (of the entry alone, for entries): the rule is the copy's too
+        col.count('insertions_into_a_deep_copy')
+        if cname != 'Posting' and r.random() < 0.5:
+            d = copy.deepcopy(d)
+            f = d
+            owner = d
+        else:
+            f = copy.deepcopy(f)
+            d = f.directives[0]
+            owner = d.postings[0] if cname == 'Posting' else d
+        if owner.indent_by != eff_by:
+            col.violation('copy-indent_by-lost', f'the deep copy of a {cname} with indent_by {eff_by!r} has indent_by {owner.indent_by!r}',
+                          {'text': text, 'class': cname})
+            return
     store = f.token_store
     path = '$.directives[0]' + ('.postings[0]' if cname == 'Posting' else '')
     for step in range(r.randint(1, 3)):
